@@ -19,13 +19,13 @@ ID = "C15"
 RULE = ("motifs: every connected atlas graph with <= 5 vertices plus every connected 6-vertex graph with <= 7 edges (quick) / every connected graph with <= 6 vertices (thorough), each with every focal vertex, random connected "
         "7-vertex graphs with <= 11 edges (thorough), cliques <= K6, cycles <= C12, stars, paths, and relabelled copies with non-contiguous "
         "vertex ids; histories: one evaluator, a shuffled stream of (motif, root, phi, u) queries mixing exact-polynomial and float arguments "
-        "with re-queries of the same motif under other roots / phi / u, every answer compared with the brute-force oracle; 60% of the history queries hand over a motif graph OBJECT kept from earlier queries with its u attributes overwritten in place, and re-query it at the same phi and focal vertex after such an update; non-trivial = "
+        "with re-queries of the same motif under other roots / phi / u, every answer compared with the brute-force oracle; a quarter of the queries put the SAME value (one polynomial variable, or one float) on every vertex; 60% of the history queries hand over a motif graph OBJECT kept from earlier queries with its u attributes overwritten in place, and re-query it at the same phi and focal vertex after such an update; non-trivial = "
         ">= 3 vertices and (a cycle or >= 2 distinct u in the answer); distinct = SHA-1 of (edge set, roots, history)")
 ASSUMPTIONS = ["all motifs on one evaluator are distinctly named (as the property stipulates)", "polynomial identity after full expansion; float spot checks at 1e-12",
                "oracle: enumeration of all 2^|E| occupation states with a bitmask component search"]
 HEADLINE = ["queries", "poly_identities", "float_checks", "motifs", "roots", "history_cases", "cross_evaluator_name_reuse", "queries_on_a_kept_motif_object", "requeries_after_in_place_u_update", "cache_hits", "cache_misses", "shadow_unsupported", "nonintegral_float_coercions"]
-REQUIRED = {"quick": {"poly_identities_or_numeric": 150, "float_checks": 100, "history_cases": 5, "cache_hits": 20, "requeries_after_in_place_u_update": 10},
-            "thorough": {"poly_identities_or_numeric": 800, "float_checks": 500, "history_cases": 50, "cache_hits": 200, "requeries_after_in_place_u_update": 100}}
+REQUIRED = {"quick": {"poly_identities_or_numeric": 150, "float_checks": 100, "history_cases": 5, "cache_hits": 20, "requeries_after_in_place_u_update": 10, "queries_with_equal_u_on_all_vertices": 100},
+            "thorough": {"poly_identities_or_numeric": 800, "float_checks": 500, "history_cases": 50, "cache_hits": 200, "requeries_after_in_place_u_update": 100, "queries_with_equal_u_on_all_vertices": 500}}
 SHARD_TIMEOUT = {"quick": 900, "thorough": 10800}
 
 
@@ -122,8 +122,11 @@ def query(res, ae, watch, g, name, root, mode, rng, oracle_cache, ctx, H=None, p
     nodes = list(g.nodes())
     res.count("queries")
     if mode == "poly":
+        common = rng.random() < 0.25       # every vertex carries the SAME value (a homogeneous network): one variable u for all
+        if common:
+            res.count("queries_with_equal_u_on_all_vertices")
         for v in nodes:
-            H.nodes[v]["u"] = P.var("u%s" % v)
+            H.nodes[v]["u"] = P.var("u" if common else "u%s" % v)
         try:
             got = watch.around(lambda: sut("automated_equation(poly)", ae.automated_equation, H, P.var("phi"), root))
         except SutRaised as e:
@@ -135,9 +138,9 @@ def query(res, ae, watch, g, name, root, mode, rng, oracle_cache, ctx, H=None, p
                 if not query(res, ae, watch, g, name, root, "float", rng, oracle_cache, ctx):
                     return False
             return True
-        key = ("poly", root)
+        key = ("poly", root, common)
         if key not in oracle_cache:
-            oracle_cache[key] = percolation_poly(nodes, list(g.edges()), root)
+            oracle_cache[key] = percolation_poly(nodes, list(g.edges()), root, common_u="u" if common else None)
         want = oracle_cache[key]
         res.count("poly_identities")
         if not isinstance(got, P):
@@ -154,6 +157,10 @@ def query(res, ae, watch, g, name, root, mode, rng, oracle_cache, ctx, H=None, p
             out["phi"] = phi
         # "all real phi and u": include values where a shortcut could branch (0, 1, 2, -1, and phi*u == 1 exactly)
         us = {v: rng.choice([0.0, 1.0, rng.random(), rng.random(), 2.0, -1.0, (1.0 / phi if phi else 1.0)]) for v in nodes}
+        if rng.random() < 0.25:
+            x = rng.choice([rng.random(), rng.random(), 0.651, 0.0, 1.0, 2.0])
+            us = {v: x for v in nodes}          # homogeneous values (what a regular network's fixed point looks like)
+            res.count("queries_with_equal_u_on_all_vertices")
         for v in nodes:
             H.nodes[v]["u"] = us[v]
         got = watch.around(lambda: sut("automated_equation(float)", ae.automated_equation, H, phi, root))
